@@ -71,6 +71,17 @@ ALL = [
 ]
 
 
+# Verus obligations that have a Kani twin on the same real function: when the Verus obligation fails, the twin
+# is run (any tier) to obtain a concrete counterexample that is replayed natively
+TWINS = {
+    'seal_in_place_detached': 'seal_state_machine_model',
+    'open_in_place_detached': 'open_state_machine_model',
+    'gen_keypair': 'gen_keypair_depends_only_on_rng',
+    'full_suite_id': 'suite_ids_table_x25519',
+    'kem_suite_id': 'suite_ids_table_x25519',
+}
+
+
 def harnesses_for(pid, tier):
     return [h for h in ALL if pid in h['props'] and (tier == 'thorough' or h['tier'] == 'quick')]
 
@@ -154,8 +165,46 @@ def run_one(scratch, h):
     return res
 
 
-def run_for_property(pid, tier, seed):
+def playback(h):
+    """counterexample replay: Kani's concrete values for the failed check are written as a unit test into the
+    harness module (`--concrete-playback=inplace`) and executed NATIVELY against the real code"""
+    sc = tempfile.mkdtemp(prefix='hpke_kplay_')
+    env = dict(os.environ, CARGO_NET_OFFLINE='true')
+    try:
+        build_scratch(sc)
+        cmd = ['cargo', 'kani', '--target-dir', KTARGET, '-Z', 'stubbing', '-Z', 'function-contracts', '-Z', 'concrete-playback',
+               '--concrete-playback=inplace', '--harness', h['name'], '--output-format', 'terse']
+        if h['features']:
+            cmd += ['--features', h['features']]
+        subprocess.run(cmd, cwd=sc, capture_output=True, text=True, timeout=h['timeout'], env=env)
+        tests = []
+        for root, _, fs in os.walk(os.path.join(sc, 'src')):
+            for f in fs:
+                txt = open(os.path.join(root, f)).read()
+                for m in re.finditer(r'/// Check for `(?!cover)[^\n]*\n\s*\n?\s*#\[test\]\s*fn (kani_concrete_playback_\w+)\(\) \{.*?\n\s*\}', txt, re.S):
+                    tests.append((m.group(1), m.group(0)))
+        if not tests:
+            return None
+        env2 = dict(env, CARGO_TARGET_DIR=os.path.join(CACHE, 'kani-playback-target'))
+        cmd = ['cargo', 'kani', 'playback', '-Z', 'concrete-playback']
+        if h['features']:
+            cmd += ['--features', h['features']]
+        cmd += ['--', tests[0][0]]
+        p = subprocess.run(cmd, cwd=sc, capture_output=True, text=True, timeout=900, env=env2)
+        out = p.stdout + p.stderr
+        lines = [l for l in out.splitlines() if re.search(r'^test |panicked|assert|test result|^error\[', l)]
+        native = 'FAILS natively (counterexample confirmed on the real code)' if 'test result: FAILED' in out else \
+                 ('passes natively (Kani counterexample NOT reproduced)' if 'test result: ok' in out else 'native run did not complete')
+        return {'test': tests[0][1].replace(sc, '<scratch>'), 'native': native, 'native_output': '\n'.join(lines[:12])}
+    except Exception as e:
+        return {'test': None, 'native': 'playback failed: %r' % (e,), 'native_output': ''}
+    finally:
+        shutil.rmtree(sc, ignore_errors=True)
+
+
+def run_for_property(pid, tier, seed, extra_names=()):
     hs = harnesses_for(pid, tier)
+    hs = hs + [h for h in ALL if h['name'] in extra_names and h not in hs]
     if not hs:
         return {'status': 'ok', 'harnesses': [], 'counterexamples': {}}
     key = src_hash()
@@ -199,7 +248,20 @@ def run_for_property(pid, tier, seed):
         r = dict(cache[h['name']])
         out.append(r)
         if not r['ok'] and not r.get('undecided'):
-            cex['kani %s' % h['name']] = 'kani harness %s FAILED: %s\n%s' % (h['name'], r.get('detail'), r.get('log', '')[-3000:])
+            if 'playback' not in r:
+                r['playback'] = playback(h)
+                cache[h['name']]['playback'] = r['playback']
+                try:
+                    json.dump(cache, open(cache_p, 'w'))
+                except Exception:
+                    pass
+            pb = r.get('playback')
+            txt = 'kani harness %s FAILED: %s\n' % (h['name'], r.get('detail'))
+            if pb and pb.get('test'):
+                txt += 'concrete input found by CBMC, as a unit test:\n%s\nnative execution against the real code: %s\n%s\n' % (pb['test'], pb['native'], pb['native_output'])
+                r['has_cex'] = 'FAILS natively' in pb['native']
+            txt += '\n--- kani log (tail) ---\n' + r.get('log', '')[-2500:]
+            cex['kani %s' % h['name']] = txt
     return {'status': 'ok', 'harnesses': out, 'counterexamples': cex}
 
 
